@@ -253,8 +253,39 @@ class Frame:
     def st_Expr(self, s):
         if isinstance(s.value, ast.Constant):
             return FALL
-        self.ex(s.value)
+        v = self.ex(s.value)
+        self._inplace_call(s.value, v, s)
         return FALL
+
+    def _inplace_target(self, n):
+        """for `f(x, ...)`, f a package function whose effect summary says it writes through parameter p and returns exactly that argument: the name passed for p"""
+        if not (isinstance(n, ast.Call) and isinstance(n.func, ast.Name)):
+            return None
+        q = self.ctx.model.resolve(self.mod, n.func.id)
+        fn = self.ctx.model.funcs.get(q) if isinstance(q, str) else None
+        if fn is None or any(isinstance(a, ast.Starred) for a in n.args) or any(k.arg is None for k in n.keywords):
+            return None
+        from .rules.common import effects
+        summ = effects(self.ctx.model)[0].get(fn.qual)
+        if not summ or len(summ['ret']) != 1:
+            return None
+        (r,) = tuple(summ['ret'])
+        if r[0] != 'P' or r[1] not in summ['mut']:
+            return None
+        node = None
+        if r[1] in fn.params and fn.params.index(r[1]) < len(n.args):
+            node = n.args[fn.params.index(r[1])]
+        for k in n.keywords:
+            if k.arg == r[1]:
+                node = k.value
+        return (node.id, fn.name) if isinstance(node, ast.Name) else None
+
+    def _inplace_call(self, n, v, s):
+        """`f(x, ...)` as a statement, f kept as a call (not inlined) and known to update x in place and return it: after the call the caller's x is the returned
+        object, i.e. the statement is `x = f(x, ...)`"""
+        t = self._inplace_target(n)
+        if t and isinstance(v, tuple) and v and v[0] == 'call' and v[1] == t[1]:
+            self.assign(ast.Name(id=t[0], ctx=ast.Store()), v, s)
 
     def st_Pass(self, s):
         return FALL
@@ -357,6 +388,17 @@ class Frame:
         return CONTINUE
 
     def st_FunctionDef(self, s):
+        body = [b for b in s.body if not (isinstance(b, ast.Expr) and isinstance(b.value, ast.Constant))]
+        a = s.args
+        if len(body) == 1 and isinstance(body[0], ast.Return) and body[0].value is not None and not s.decorator_list \
+                and not (a.vararg or a.kwarg or a.kwonlyargs or a.defaults or a.posonlyargs):
+            # a local helper that is one return expression: the same thing as a lambda bound to the name
+            lam = ast.Lambda(args=a, body=body[0].value)
+            ast.copy_location(lam, s)
+            key = f'def@{self.mod}:{s.lineno}:{s.name}'
+            self.ctx.lambdas[key] = (lam, dict(self.env), self.mod, id(self))
+            self.env[s.name] = ('lambda', key)
+            return FALL
         self.env[s.name] = ('opaque', f'nested function {s.name}')
         return FALL
 
@@ -700,7 +742,7 @@ class Frame:
         self._iter_guard = TRUE
         key, lv, elem = self.iter_binding(s.iter)
         it_guard = self._iter_guard
-        assigned = _assigned_names(s.body)
+        assigned = _assigned_names(s.body, self._inplace_target)
         targets = _target_names(s.target)
         live_in = _read_before_write(s.body, targets)
         # a name assigned only under a condition keeps its earlier value in the iterations that skip the assignment: its value after the loop
@@ -790,7 +832,7 @@ class Frame:
 
     def st_While(self, s):
         self.ctx.opaque.append(('while loop', self.where(s)))
-        for n in _assigned_names(s.body):
+        for n in _assigned_names(s.body, self._inplace_target):
             self.env[n] = ('opaque', f'while-loop variable {n}')
         return FALL
 
@@ -1033,6 +1075,14 @@ class Frame:
                 if isinstance(v, ast.Dict) and all(isinstance(k_, ast.Constant) for k_ in v.keys) and \
                         all(isinstance(x, (ast.Lambda, ast.Name, ast.Attribute, ast.Constant)) for x in v.values):
                     return self.ex(v)        # a module-level dispatch table: constant keys, values that are functions / constants
+                r_ = self._module_value(n.id, v)
+                if r_ is not None:
+                    return r_
+                ma_ = self.ctx.model.modassign[self.mod]
+                if isinstance(v, (ast.Tuple, ast.List, ast.Set)) and all(
+                        isinstance(e, ast.Constant) or (isinstance(e, ast.Name) and e.id != n.id and isinstance(ma_.get(e.id), ast.Constant)
+                                                        and e.id not in _mutated_globals(self.ctx.model, self.mod)) for e in v.elts):
+                    return self.ex(v)        # a display of constants and of names bound to constants in the same module
                 return ('global', self.mod, n.id)
         if n.id in ('True', 'False', 'None'):
             return C({'True': True, 'False': False, 'None': None}[n.id])
@@ -1042,6 +1092,44 @@ class Frame:
             self.ctx.event('nameerror', n.id, guard=self.guard(), where=self.where(n))
             return ('opaque', f'NameError: {n.id} is not defined')
         return ('builtin', n.id)
+
+    _PURE_MODULE_NODES = (ast.Constant, ast.Name, ast.Tuple, ast.List, ast.Dict, ast.Set, ast.Subscript, ast.DictComp, ast.ListComp, ast.SetComp, ast.GeneratorExp,
+                          ast.comprehension, ast.Load, ast.Store, ast.Call, ast.Attribute, ast.BinOp, ast.Add, ast.IfExp, ast.Compare, ast.Eq, ast.NotEq, ast.In, ast.NotIn,
+                          ast.JoinedStr, ast.FormattedValue, ast.Starred)
+
+    def _module_value(self, name, v):
+        """the value of a module-level constant written as an expression over literals and other module-level constants (tables derived from tables,
+        comprehensions over literal collections, 'a'.join(...)): evaluated once with the ordinary evaluator in an empty scope; None when anything in it
+        is not a known value"""
+        if not all(isinstance(x, self._PURE_MODULE_NODES) for x in ast.walk(v)):
+            return None
+        for x in ast.walk(v):
+            if isinstance(x, ast.Call) and not (isinstance(x.func, ast.Attribute) and x.func.attr in ('join', 'format', 'items', 'keys', 'values', 'upper', 'lower', 'replace')
+                                                or isinstance(x.func, ast.Name) and x.func.id in ('dict', 'tuple', 'list', 'frozenset', 'set', 'zip', 'sorted', 'len', 'str', 'enumerate', 'range')):
+                return None
+        stack = self.ctx.__dict__.setdefault('_modeval', [])
+        cache = self.ctx.__dict__.setdefault('_modvals', {})
+        key = (self.mod, name)
+        if key in cache:
+            return cache[key]
+        if key in stack or len(stack) > 6:
+            return None
+        stack.append(key)
+        saved_env, saved_loops, saved_pc = self.env, self.loops, self.pc
+        n_unm, n_op = len(self.ctx.unmodelled), len(self.ctx.opaque)
+        self.env, self.loops, self.pc = {}, (), []
+        try:
+            r = self.ex(v)
+        except Exception:
+            r = None
+        finally:
+            self.env, self.loops, self.pc = saved_env, saved_loops, saved_pc
+            stack.pop()
+        if r is not None and (len(self.ctx.unmodelled) != n_unm or len(self.ctx.opaque) != n_op
+                              or any(isinstance(x, tuple) and x and x[0] in ('opaque', 'global', 'call', 'attr', 'lv', 'map', 'apply') for x in T.walk(r))):
+            r = None
+        cache[key] = r
+        return r
 
     def ex_Tuple(self, n):
         return ('tuple', tuple(self.ex(e) for e in n.elts))
@@ -1275,6 +1363,17 @@ class Frame:
             return shape_of(b)
         if a == 'T':
             return T.call('transpose', (b,))
+        if a == 'size':
+            from .calls import dims_of
+            b0 = b[1] if b[0] == 'nd' else b
+            if b0[0] == 'call' and b0[1] in ('flatnonzero', 'arange', 'diff', 'unique', 'append', 'sort', 'argsort', 'cumsum'):
+                return T.length(b0)                 # one-dimensional by construction: size is the length
+            d = dims_of(b)
+            if d is not None:
+                n_ = C(1)
+                for x in d:
+                    n_ = T.mul(n_, x)
+                return n_
         return ('attr', b, a)
 
     def ex_Subscript(self, n):
@@ -1350,6 +1449,10 @@ class Frame:
                     self.ctx.event('keyerror', k[1], (b,), guard=self.guard(), where=self.where(n) if n is not None else '?')
                     return ('missing', k[1])
                 return v
+            keys_ = [kk for kk, _ in b[1]]
+            if sorted(map(repr, keys_)) == ['False', 'True'] and all(isinstance(kk, bool) for kk in keys_) and k[0] in ('cmp', 'cmp0', 'and', 'or', 'not', 'strtest', 'in'):
+                d_ = dict(b[1])
+                return T.gamma(self.fold(k), d_[True], d_[False])        # a two-entry table keyed by True / False, looked up with a condition: a conditional
         if b[0] == 'arr' and k[0] != 'lv':
             # read back the last unguarded store to the same constant index
             for i, v, g in reversed(b[2]):
@@ -1367,10 +1470,15 @@ class Frame:
 
     def ex_Lambda(self, n):
         a = n.args
-        if a.vararg or a.kwarg or a.kwonlyargs or a.defaults or a.posonlyargs:
+        if a.vararg or a.kwarg or a.kwonlyargs or a.posonlyargs:
             return ('opaque', 'lambda')
         key = f'lambda@{self.mod}:{n.lineno}:{n.col_offset}'
-        self.ctx.lambdas[key] = (n, dict(self.env), self.mod)
+        if a.defaults:
+            # defaults are evaluated when the lambda is written (the early-binding idiom `lambda x, th=thresholds: ...`): one entry per distinct binding
+            dv = tuple(self.ex(d) for d in a.defaults)
+            key += ':' + str(abs(hash(dv)) % 10**8)
+            self.ctx.__dict__.setdefault('lambda_defaults', {})[key] = dict(zip([x.arg for x in a.args[len(a.args) - len(dv):]], dv))
+        self.ctx.lambdas[key] = (n, dict(self.env), self.mod, id(self))
         return ('lambda', key)
 
     def comprehension(self, n, kind):
@@ -1672,7 +1780,7 @@ class _ReturnToBreak(ast.NodeTransformer):
                 ast.Assign([ast.Name(self.has, ast.Store())], ast.Constant(True), lineno=n.lineno), ast.Break(lineno=n.lineno)]
 
 
-def _assigned_names(body):
+def _assigned_names(body, inplace=None):
     out = []
     for s in body:
         for x in ast.walk(s):
@@ -1686,6 +1794,9 @@ def _assigned_names(body):
                 for y in ast.walk(x.target):
                     if isinstance(y, ast.Name) and y.id not in out:
                         out.append(y.id)
+            elif inplace is not None and isinstance(x, ast.Expr) and isinstance(x.value, ast.Call) and inplace(x.value):
+                if inplace(x.value)[0] not in out:
+                    out.append(inplace(x.value)[0])          # f(x, ...) as a statement, f updating x in place and returning it
             elif isinstance(x, ast.Call) and isinstance(x.func, ast.Attribute) and isinstance(x.func.value, ast.Name) \
                     and x.func.attr in ('append', 'pop', 'update', 'extend', 'insert', 'setdefault'):
                 if x.func.value.id not in out:
